@@ -28,7 +28,11 @@ ControlAgrees(obs, fields) ==
 TarAgrees(obs, files) ==
     LET want == RegularFiles(files) IN
     /\ Len(obs.tar) = Len(want)
-    /\ \A k \in 1..Len(want) : obs.tar[k].name = want[k].name /\ obs.tar[k].content = want[k].content
+    /\ \A k \in 1..Len(want) :
+          /\ obs.tar[k].name = want[k].name
+          /\ IF want[k].kind = "fill"       \* content <<b, e>> : the byte b repeated 2^e times, logged as length and fill byte
+             THEN obs.tar[k].len = 2 ^ want[k].content[2] /\ obs.tar[k].fill = want[k].content[1]
+             ELSE obs.tar[k].content = want[k].content
 
 JudgeC14(rec) ==
     LET ms == rec.in.members
@@ -98,8 +102,31 @@ JudgeDebRaw(rec) ==
           <<\A k \in 1..Len(rec.ids) : rec.ids[k] # "panic", "panic">>,
           <<\A i, j \in 1..Len(rec.ids) : rec.ids[i] = rec.ids[j], "loading the same bytes gives different results">> >>)
 
+\* ---- several loaded packages alive in one process -----------------------------------------------------
+\* abstract state per handle: the package it was loaded from.  Whatever else has been loaded, read or closed (even
+\* twice) before, a handle's Control names its package, its Data stream lists that package's files, and the
+\* signature that covers that package verifies.
+JudgeLife(rec) ==
+    LET ops == rec.in.ops
+        PkgOf(h) == rec.in.pkgs[ops[CHOOSE j \in 1..Len(ops) : ops[j].op = "load" /\ ops[j].h = h].p]
+        Name(h) == FieldText(PkgOf(h)[2].fields, <<80, 97, 99, 107, 97, 103, 101>>)
+        Bad(i) == LET o == rec.steps[i]  h == ops[i].h IN
+                  \/ o.panic
+                  \/ CASE ops[i].op = "load"  -> ~(o.ok /\ o.package = Name(h))
+                       [] ops[i].op = "close" -> FALSE
+                       [] ops[i].op = "data"  -> ~(o.ok /\ o.package = Name(h) /\ TarAgrees([tar |-> o.tar], PkgOf(h)[3].files))
+                       [] ops[i].op = "check" -> ~(o.ok /\ o.signer = "k1" /\ o.package = Name(h))
+        bad == {i \in 1..Len(ops) : Bad(i)}
+        first == CHOOSE i \in bad : \A j \in bad : i <= j
+    IN IF ~rec.built THEN V(TRUE, "aux", "")
+       ELSE IF Len(rec.steps) # Len(ops) THEN V(FALSE, "package-lifecycle", "missing steps")
+       ELSE IF bad = {} THEN V(TRUE, "package-lifecycle", "")
+       ELSE V(FALSE, "package-lifecycle", "with several loaded packages alive in one process (some closed, some twice), a handle (" \o
+              ops[first].op \o ") does not show its own package: control, data stream or signature verdict belong to something else")
+
 Judge(rec) ==
-    CASE rec.ev = "deb" /\ "check" \in DOMAIN rec.in -> JudgeC16(rec)
+    CASE rec.ev = "deb_ops" -> JudgeLife(rec)
+      [] rec.ev = "deb" /\ "check" \in DOMAIN rec.in -> JudgeC16(rec)
       [] rec.ev = "deb" /\ "check" \notin DOMAIN rec.in -> JudgeC14(rec)
       [] rec.ev = "debraw" -> JudgeDebRaw(rec)
       [] OTHER -> V(FALSE, "unknown-event", "unknown event")
